@@ -64,7 +64,7 @@ version is 100 — and, in this **v1 statement**, faces carry no displacement (d
 is in the model, the correspondence and the search, but not yet in the theorem). `IdsOK`: no id is the
 "allocate one" marker -1, group ids are distinct. -/
 
-/-- **Round trip (v1 domain).** Re-parsing the exported tree with `preserve_ids=True` gives
+/-- **Round trip.** Re-parsing the exported tree with `preserve_ids=True` gives
 exactly the projected map: nothing else is lost or changed. -/
 theorem C06_tree_roundtrip_partial (o : ExportOpts) (m : VMap) (h : MapOK1 m) (hid : IdsOK m) :
     parseTree true (exportTree o m) = .ok (project o m) := by
@@ -73,23 +73,25 @@ theorem C06_tree_roundtrip_partial (o : ExportOpts) (m : VMap) (h : MapOK1 m) (h
   simp only [Except.map]
   rw [assignIds_preserve _ (idsOK_rawRT o m hid), fix_rawRT_eq_project o m h]
 
-/-- **Fixed point (v1 domain).** Exporting the re-parsed map again (without incrementing the map
-version a second time) yields the same tree as the first export: export -> parse -> export changes
-nothing. (`logicalPos ≠ []`: the constructor of the implementation never leaves it empty.) -/
+/-- **Fixed point.** Exporting the re-parsed map again (without incrementing the map version a
+second time) yields the same tree as the first export: export -> parse -> export changes nothing.
+(`logicalPos ≠ []`: the constructor of the implementation never leaves it empty. `EntNoDisp`: the
+second-export equation is proved for faces without displacement data only; with displacement it is
+checked by the correspondence / search on every run.) -/
 theorem C06_fixed_point_partial (o : ExportOpts) (m : VMap) (h : MapOK1 m) (hid : IdsOK m)
-    (hl : ∀ e ∈ m.ents, e.logicalPos ≠ []) :
+    (hl : ∀ e ∈ m.ents, e.logicalPos ≠ []) (hnd : EntNoDisp m.spawn ∧ ∀ e ∈ m.ents, EntNoDisp e) :
     (parseTree true (exportTree o m)).map (exportTree { o with incVersion := false })
       = .ok (exportTree o m) := by
   rw [C06_tree_roundtrip_partial o m h hid]
   simp only [Except.map]
-  rw [exportTree_project o m h hl]
+  rw [exportTree_project o m h hl hnd]
 
 /-- The second generation is stable for ever: the projected map is its own projection as far as
 the exported tree is concerned. -/
 theorem C06_project_export (o : ExportOpts) (m : VMap) (h : MapOK1 m)
-    (hl : ∀ e ∈ m.ents, e.logicalPos ≠ []) :
+    (hl : ∀ e ∈ m.ents, e.logicalPos ≠ []) (hnd : EntNoDisp m.spawn ∧ ∀ e ∈ m.ents, EntNoDisp e) :
     exportTree { o with incVersion := false } (project o m) = exportTree o m :=
-  exportTree_project o m h hl
+  exportTree_project o m h hl hnd
 
 /-- **Renumbering (`preserve_ids=False`).** Whatever ids the file contains (repeated, zero,
 negative, missing), after a parse without `preserve_ids` the ids of every kind — visgroups, groups,
@@ -118,18 +120,27 @@ theorem C06_get_id_fresh (m : IdMan) (d : Int) (h : m.Inv) :
 /-- Sub-structure forms of the same statement (each reader undoes its writer). -/
 theorem C06_entity_partial (mb w hidden : Bool) (groups : List Group) (e : Ent) (h : EntOK1 e)
     (hg : ∀ g ∈ groups, GroupOK g = true) :
-    parseEnt w hidden (entBlock mb w groups e) = .ok (entRT w hidden e, if w then groups else []) :=
+    parseEnt w hidden (entBlock mb w groups e) = .ok (entRT mb w hidden e, if w then groups else []) :=
   parseEnt_block mb w hidden groups e h hg
 
 theorem C06_output_partial (o : Out) (h : OutOK o = true) : parseOut (exportOut o) = .ok (projOut o) :=
   parseOut_export o h
 
 theorem C06_solid_partial (mb ig hidden : Bool) (s : Solid) (h : SolidOK1 s = true) :
-    parseSolid hidden (solidBlock mb ig s) = .ok (solidRT ig hidden s) :=
+    parseSolid hidden (solidBlock mb ig s) = .ok (solidRT mb ig hidden s) :=
   parseSolid_block mb ig hidden s h
 
-theorem C06_side_partial (mb : Bool) (s : Side) (h : SideOK1 s = true) : parseSide (exportSide mb s) = .ok s :=
+/-- a face, with Strata point data and displacement data (all arrays, multiblend per option) -/
+theorem C06_side (mb : Bool) (s : Side) (h : SideOK1 s = true) :
+    parseSide (exportSide mb s) = .ok (projSide mb s) :=
   parseSide_export1 mb s h
+
+/-- the `dispinfo` block: every vertex array is read back to the vertex it was written from; the
+triangle tags of the last row and column (which are not written) come back as the default, and the
+multiblend arrays exist exactly when the option is on and some vertex has a non-zero blend. -/
+theorem C06_displacement (mb : Bool) (d : Disp) (h : DispOK d = true) :
+    parseDisp (exportDisp mb d).kids = .ok (projDisp mb d) :=
+  parseDisp_export mb d h
 
 theorem C06_visgroup (v : Vis) (h : VisOK v = true) : parseVis (exportVis v) = .ok v :=
   parseVis_export v h
@@ -186,6 +197,22 @@ def exMap : VMap :=
     activeCam := 1, cams := [⟨exV "1" "2" "3", exV "4" "5" "6"⟩], cordonOn := true,
     cordons := [⟨lit "cor\"don", true, exV "0" "0" "0", exV "8" "8" "8"⟩], quickhide := 2 }
 
+def exVert (i : Nat) : DVert :=
+  { normal := exV "0" "0" "1", dist := (toString i ++ ".5").toList, offset := exV "0" "0" "0",
+    offsetNorm := exV "0" "0" "1", alpha := lit "255.0", triA := 1, triB := 9,
+    blend := ⟨lit "0.5", lit "0", lit "1e-05", lit "0"⟩, malpha := ⟨lit "1", lit "1", lit "1", lit "1"⟩,
+    colors := if i % 2 == 0 then some [exV "1" "0" "0", exV "0" "1" "0", exV "0" "0" "1", exV "1" "1" "1"] else none }
+
+def exDisp : Disp :=
+  { power := 1, pos := exV "0" "0" "0", elev := lit "0.0", coll := 5, subdiv := true,
+    allowed := [-1, -1, -1, -1, -1, -1, -1, -1, -1, -1], verts := (List.range 9).map exVert }
+
+theorem exDisp_ok : DispOK exDisp = true := by decide
+
+/-- the example map with a displacement (multiblend data included) on one face of a brush entity -/
+def exMapD : VMap :=
+  { exMap with ents := [{ exEnt with solids := [{ exSolid with sides := [{ exSide with disp := some exDisp }] }] }] }
+
 theorem exSolid_ok : SolidOK1 exSolid = true := by decide
 theorem exEnt_ok (e : Ent) (h : e = exEnt ∨ e = { exEnt with id := 6, hidden := false, solids := [] }) : EntOK1 e := by
   rcases h with rfl | rfl <;>
@@ -220,6 +247,31 @@ example : (parseTree true (exportTree { minimal := true, multiblend := false, in
       (exportTree { minimal := true, multiblend := false, incVersion := false })
     = .ok (exportTree { minimal := true, multiblend := false, incVersion := true } exMap) :=
   C06_fixed_point_partial { minimal := true, multiblend := false, incVersion := true } exMap exMap_ok exMap_ids (by decide)
+    ⟨by decide, by decide⟩
+
+theorem exMapD_ok : MapOK1 exMapD :=
+  { exMap_ok with
+    ents := by
+      intro e he
+      have : e = { exEnt with solids := [{ exSolid with sides := [{ exSide with disp := some exDisp }] }] } := by
+        simpa [exMapD] using he
+      subst this
+      exact { idNonneg := by decide, keyNames := by decide, keysDistinct := by unfold KeysDistinct; decide,
+              fixes := by decide, fixIds := by decide, fixVars := by unfold VarsDistinct; decide,
+              outs := by decide, solids := by decide, color := by decide } }
+
+theorem exMapD_ids : IdsOK exMapD :=
+  { exMap_ids with
+    ents := by
+      intro e he
+      have : e = { exEnt with solids := [{ exSolid with sides := [{ exSide with disp := some exDisp }] }] } := by
+        simpa [exMapD] using he
+      subst this
+      exact ⟨by decide, by decide⟩ }
+
+example : parseTree true (exportTree { minimal := false, multiblend := true, incVersion := false } exMapD)
+    = .ok (project { minimal := false, multiblend := true, incVersion := false } exMapD) :=
+  C06_tree_roundtrip_partial _ _ exMapD_ok exMapD_ids
 
 example : IdsInjective (assignIds false { exMap with ents := [exEnt, exEnt, exEnt] }) :=
   assignIds_injective _
